@@ -1292,8 +1292,13 @@ func driveC04(c *h.Ctx) error {
 	c.Extra("bitmask_readers_repaired", g.masksOK)
 	t := &c04Tables{}
 	if c.Replay != nil {
+		if m, _ := c.Replay["case"].(map[string]any); m != nil && m["part"] == "interval" {
+			c04IntervalLeg(c)
+			return c04WriteCases(c, g, t)
+		}
 		return c04Replay(c, g, t)
 	}
+	c04IntervalLeg(c)
 	// exhaustive small part: every pool value of every kind, bare and inside a structure
 	var singles []*c04Item
 	regTag := kmip.TagObjectGroup
